@@ -322,7 +322,18 @@ fn query_toks(g: &CompositionGraph) -> Toks {
 fn run_plan(out: &mut Out, seed: u64, shard: u64, i: u64, per_lib: u64, cap: usize) {
     let l = i / per_lib;
     let mut lrng = Rng::new(seed.wrapping_mul(37).wrapping_add(shard.wrapping_mul(1_000_003)).wrapping_add(l).wrapping_add(0xC03));
-    let mut lib = build_library_from(&mut lrng, 5, true, name_pool_c03());
+    // every other library draws its names from the pool whose versions cross a digit boundary
+    let digits = l % 2 == 1;
+    let mut lib = if digits {
+        // one family of the pool (a base name) is the focus of the library
+        let pool = name_pool_c03_digits();
+        let bases: Vec<&str> = ["test:d/w", "test:e/x", "test:g/y", "test:h/z", "test:k/v", "test:s/m"].to_vec();
+        let base = *lrng.pick(&bases);
+        let focus: Vec<(&'static str, Shape)> = pool.iter().filter(|(n, _)| n.split('@').next() == Some(base)).cloned().collect();
+        build_library_focus(&mut lrng, 5, true, pool, &focus)
+    } else {
+        build_library_from(&mut lrng, 5, true, name_pool_c03())
+    };
     for w in ["old", "new", "newv", "mixed"] {
         let bytes = wit_component_bytes(WIT_VERSIONED, w).unwrap_or_else(|e| panic!("wit world {w}: {e:?}"));
         lib.push(LibPkg { name: format!("witv:{}", w), version: None, bytes, origin: "wit", shapes: None });
@@ -360,6 +371,13 @@ fn run_plan(out: &mut Out, seed: u64, shard: u64, i: u64, per_lib: u64, cap: usi
             };
             if all.iter().any(|(n, e)| *e && all.iter().any(|(m, e2)| !*e2 && m != n && track(m).is_some() && track(m) == track(n))) {
                 out.count("shape:explicit-import-on-track-of-implicit");
+            }
+            // two names on one track whose order as strings is not the order of their versions
+            let ver = |n: &str| n.split_once('@').and_then(|(_, v)| semver::Version::parse(v).ok());
+            if all.iter().any(|(n, _)| {
+                all.iter().any(|(m, _)| m != n && track(m).is_some() && track(m) == track(n) && (m < n) != (ver(m) < ver(n)))
+            }) {
+                out.count("shape:string-order-differs-from-version-order-on-a-track");
             }
             if all.iter().any(|(n, e)| !*e && all.iter().any(|(m, e2)| !*e2 && m != n && track(m).is_some() && track(m) == track(n))) {
                 out.count("shape:two-implicit-versions-on-one-track");
